@@ -858,6 +858,26 @@ pub fn c08_largest_first<S: Src>(_s: &mut S) {
             }
         }
     }
+    // the largest UTxO lands in the narrow band around "outputs + fee": sweep it in steps of 250 lovelace; smaller ones could close any gap
+    for multi in [false, true] {
+        let target: u64 = 2_000_000;
+        let mut a = target + 150_000;
+        while a < target + 190_000 {
+            let mut tb = TransactionBuilder::new(&config(true));
+            tb.add_output(&TransactionOutput::new(&addr(0, 50), &Value::new(&bn(target)))).unwrap();
+            let mut utxos = TransactionUnspentOutputs::new();
+            for (k, c) in [a, 1_000_000, 1_000_000, 1_000_000].iter().enumerate() {
+                utxos.add(&TransactionUnspentOutput::new(&TransactionInput::new(&TransactionHash::from([k as u8 + 1; 32]), 0), &TransactionOutput::new(&addr(1, 4), &Value::new(&bn(*c)))));
+            }
+            let strategy = if multi { CoinSelectionStrategyCIP2::LargestFirstMultiAsset } else { CoinSelectionStrategyCIP2::LargestFirst };
+            if tb.add_inputs_from(&utxos, strategy).is_ok() {
+                let ins = tb.get_explicit_input().map(|v| u64::from(v.coin())).unwrap_or(0);
+                let need = target + tb.min_fee().map(u64::from).unwrap_or(0);
+                if ins < need { failures.push(format!("largest-first, largest offered UTxO {}: selection reported success but inputs {} < outputs + minimum fee {}", a, ins, need)); break; }
+            }
+            a += 250;
+        }
+    }
     assert!(failures.is_empty(), "{} largest-first scenarios violate the property; first: {}", failures.len(), failures[0]);
 }
 
@@ -887,4 +907,69 @@ pub fn c08_random_improve<S: Src>(_s: &mut S) {
         }
     }
     assert!(failures.is_empty(), "{} random-improve runs violate the property; first: {}", failures.len(), failures[0]);
+}
+
+// ---------------------------------------------------------------- C16: building an unchanged builder repeatedly yields identical bytes
+pub fn c16_repeat_build<S: Src>(_s: &mut S) {
+    let mut failures: Vec<String> = Vec::new();
+    for dedup in [false, true] {
+        let cfg = TransactionBuilderConfigBuilder::new()
+            .fee_algo(&LinearFee::new(&bn(44), &bn(155381))).pool_deposit(&bn(500_000_000)).key_deposit(&bn(2_000_000))
+            .max_value_size(5000).max_tx_size(16384).coins_per_utxo_byte(&bn(4310))
+            .deduplicate_explicit_ref_inputs_with_regular_inputs(dedup).build().unwrap();
+        let mut tb = TransactionBuilder::new(&cfg);
+        let mut ib = TxInputsBuilder::new();
+        ib.add_key_input(&kh(1), &TransactionInput::new(&TransactionHash::from([1u8; 32]), 0), &Value::new(&bn(500_000_000)));
+        tb.set_inputs(&ib);
+        for k in 0..6u8 { tb.add_reference_input(&TransactionInput::new(&TransactionHash::from([40 + k; 32]), k as u32)); }
+        tb.add_script_reference_input(&TransactionInput::new(&TransactionHash::from([90u8; 32]), 0), 100);
+        tb.add_output(&TransactionOutput::new(&addr(0, 50), &Value::new(&bn(10_000_000)))).unwrap();
+        tb.set_fee(&bn(2_000_000));
+        let first = tb.build().map(|b| b.to_bytes()).unwrap_or_default();
+        for rep in 0..12 {
+            let again = tb.build().map(|b| b.to_bytes()).unwrap_or_default();
+            if again != first { failures.push(format!("building the same builder again (repetition {}, dedup option {}) yields different body bytes", rep, dedup)); break; }
+            let again_tx = tb.build_tx_unsafe().map(|t| t.body().to_bytes()).unwrap_or_default();
+            if again_tx != first { failures.push(format!("build_tx_unsafe of the same builder (repetition {}, dedup option {}) yields a different body", rep, dedup)); break; }
+        }
+    }
+    assert!(failures.is_empty(), "{} repeated-build scenarios violate the property; first: {}", failures.len(), failures[0]);
+}
+
+
+// ---------------------------------------------------------------- C07: add_output admission (API-level confirmation)
+/// outputs whose value size straddles max_value_size (and whose coin straddles the min-ADA bound): whatever add_output accepts
+/// has a serialized value no larger than the maximum and at least its minimum ADA
+pub fn c07_add_output<S: Src>(_s: &mut S) {
+    let mut failures: Vec<String> = Vec::new();
+    for max_value_size in [40u32, 61, 65, 90, 130, 200] {
+        let cfg = TransactionBuilderConfigBuilder::new()
+            .fee_algo(&LinearFee::new(&bn(44), &bn(155381))).pool_deposit(&bn(500_000_000)).key_deposit(&bn(2_000_000))
+            .max_value_size(max_value_size).max_tx_size(16384).coins_per_utxo_byte(&bn(4310)).build().unwrap();
+        for n_assets in 0..8usize {
+            for name_len in [0usize, 1, 5, 17, 32] {
+                for qty in [1u64, 23, 24, 255, 256, 65_535, 65_536, 4_294_967_296] {
+                    for coin in [0u64, 1_000_000, 1_500_000, 3_000_000, 5_000_000_000] {
+                        let mut ma = MultiAsset::new();
+                        if n_assets > 0 {
+                            let mut assets = Assets::new();
+                            for k in 0..n_assets { let mut nm = vec![k as u8; name_len]; if name_len > 0 { nm[0] = k as u8; } else if k > 0 { break; } assets.insert(&AssetName::new(nm).unwrap(), &bn(qty)); }
+                            ma.insert(&ScriptHash::from([4u8; 28]), &assets);
+                        }
+                        let value = if n_assets > 0 { Value::new_with_assets(&bn(coin), &ma) } else { Value::new(&bn(coin)) };
+                        let out = TransactionOutput::new(&addr(1, 9), &value);
+                        let mut tb = TransactionBuilder::new(&cfg);
+                        if tb.add_output(&out).is_ok() {
+                            let size = value.to_bytes().len();
+                            if size > max_value_size as usize { failures.push(format!("add_output accepted an output whose value is {} bytes, max_value_size is {}", size, max_value_size)); }
+                            let need = u64::from(min_ada_for_output(&out, &DataCost::new_coins_per_byte(&bn(4310))).unwrap());
+                            if coin < need { failures.push(format!("add_output accepted an output with {} lovelace, its minimum is {}", coin, need)); }
+                        }
+                        if failures.len() > 5 { break; }
+                    }
+                }
+            }
+        }
+    }
+    assert!(failures.is_empty(), "{} outputs violate the property; first: {}", failures.len(), failures[0]);
 }
